@@ -151,7 +151,9 @@ class AbstractPairing(metaclass=ABCMeta):
         """Process any disconnected events that are available."""
 
     def _callback_listeners(self, event):
-        for listener in self.listeners:
+        # Iterate over a copy: a listener may remove itself (or add another
+        # listener) while it is being called.
+        for listener in list(self.listeners):
             try:
                 logger.debug("callback ev:%s", event)
                 listener(event)
